@@ -73,6 +73,7 @@ type c09Scenario struct {
 	Observed  []string        `json:"observed_rings_canonical,omitempty"`
 	Partial   int             `json:"junction_simple_partial_assemblies"`
 	Budget    int             `json:"step_budget"`
+	Work      int             `json:"letters_in_all_partial_assemblies"`
 	TaskCap   int             `json:"goroutine_cap"`
 	End       string          `json:"scheduler_end,omitempty"`
 	Panics    []core.PanicRec `json:"panics,omitempty"`
@@ -194,8 +195,11 @@ func c09Carrier(t *core.Tape, e c09Enzyme, frags []c09Frag) (c09Part, bool) {
 // c09Enumerate independently enumerates (a) the canonical rings that are
 // simple cycles of the oriented fragment graph and (b) the number of
 // junction-simple partial assemblies a seed-and-extend search has to visit
-// (a chain never passes through the same junction overhang twice).
-func c09Enumerate(frags []c09Frag) (rings map[string]bool, partial int, capped bool) {
+// (a chain never passes through the same junction overhang twice), and (c)
+// the summed length, in letters, of all those partial assemblies: the work an
+// implementation does that copies, reverse-complements or hashes what it has
+// assembled so far.
+func c09Enumerate(frags []c09Frag) (rings map[string]bool, partial int, capped bool, work int) {
 	type of struct{ F, S, R string }
 	var all, flipped []of
 	for _, f := range frags {
@@ -206,6 +210,7 @@ func c09Enumerate(frags []c09Frag) (rings map[string]bool, partial int, capped b
 	const capNodes = 100000
 	for _, seed := range all {
 		partial++
+		work += len(seed.F) + len(seed.S)
 		if seed.F == seed.R {
 			rings[canonCircular(seed.F+seed.S)] = true
 			continue
@@ -214,6 +219,7 @@ func c09Enumerate(frags []c09Frag) (rings map[string]bool, partial int, capped b
 		var expand func(cur, seq string)
 		child := func(g of, cur, seq string) {
 			partial++
+			work += len(seq) + len(cur) + len(g.S)
 			if partial > capNodes {
 				capped = true
 				return
@@ -426,7 +432,7 @@ func (c09) Run(t *testing.T, tape *core.Tape, rcx *RunCtx) *core.Result {
 	sc.Frags = given
 	sc.Parts = parts
 	// independent enumeration: cross-check of the design, and the budget
-	enum, partial, capped := c09Enumerate(given)
+	enum, partial, capped, work := c09Enumerate(given)
 	if freePool {
 		if capped {
 			// too many partial assemblies to enumerate: not a usable scenario
@@ -453,7 +459,13 @@ func (c09) Run(t *testing.T, tape *core.Tape, rcx *RunCtx) *core.Result {
 	if !direct {
 		nin = len(parts)
 	}
-	sc.Budget = 50*partial*(len(given)+10) + 2000
+	// Termination is judged against the size of the search, not against one way of
+	// organising it: 50 steps per partial assembly and pool fragment, plus 100 steps per
+	// letter of every partial assembly (an implementation may copy, reverse-complement
+	// and hash what it has assembled so far at every step, and at statement granularity
+	// Booth's least-rotation algorithm alone takes a few dozen steps per letter).
+	sc.Work = work
+	sc.Budget = 50*partial*(len(given)+10) + 2000 + 100*work
 	sc.TaskCap = 10*partial + 50
 	for r := range expected {
 		sc.Expected = append(sc.Expected, r)
